@@ -232,11 +232,18 @@ def r3_keys(ctx):
 
 
 # ---------------------------------------------------------------------------
+def _is_subject(e, var):
+    """the count under test: a local name, or (var = '@<text>') the read expression itself when it is used in place"""
+    if var.startswith('@'):
+        return isinstance(e, ast.AST) and ' '.join(ast.unparse(e).split()) == var[1:]
+    return is_name(e, var)
+
+
 def sign_of(e, var, sign):
     """sign ('zero' | 'nonzero' | None) of integer expression e when `var` is zero / positive"""
     if isinstance(e, ast.Constant) and isinstance(e.value, (int, bool)):
         return 'zero' if not e.value else 'nonzero'
-    if is_name(e, var):
+    if _is_subject(e, var):
         return 'zero' if sign == 'zero' else 'nonzero'
     t = truth_of(e, var, sign)
     if t is not None and isinstance(e, (ast.Compare, ast.BoolOp, ast.UnaryOp)):
@@ -276,12 +283,12 @@ def bounded_status(e, var):
 
 
 def truth_of(e, var, sign):
-    if is_name(e, var):
+    if _is_subject(e, var):
         return sign != 'zero'
     if isinstance(e, ast.UnaryOp) and isinstance(e.op, ast.Not):
         t = truth_of(e.operand, var, sign)
         return None if t is None else not t
-    if isinstance(e, ast.Compare) and len(e.ops) == 1 and is_name(e.left, var) and isinstance(e.comparators[0], ast.Constant) and isinstance(e.comparators[0].value, int):
+    if isinstance(e, ast.Compare) and len(e.ops) == 1 and _is_subject(e.left, var) and isinstance(e.comparators[0], ast.Constant) and isinstance(e.comparators[0].value, int):
         c = e.comparators[0].value
         op = e.ops[0]
         # var in {0} or var in {1, 2, ...}
@@ -310,9 +317,26 @@ def r4_exit_status(ctx):
             cand.append(d)
         elif isinstance(v, ast.Subscript) and subscript_key(v) and subscript_key(v)[1] == 'n_failed':
             cand.append(d)
-    need(len(cand) == 1, "C10.R4: the read of run_summary['n_failed'] in main() was not found")
-    d = cand[0]
-    var = d.name
+    inline = None
+    if not cand:
+        # the count may be tested where it is read: `return 1 if run_summary.get('n_failed', 0) > 0 else 0`
+        for n in g.nodes:
+            if n.dup or n.kind not in ('stmt', 'test') or not isinstance(n.ast, ast.AST):
+                continue
+            for v in ast.walk(n.ast):
+                if (isinstance(v, ast.Call) and isinstance(v.func, ast.Attribute) and v.func.attr == 'get' and v.args and isinstance(v.args[0], ast.Constant) and v.args[0].value == 'n_failed') or \
+                        (isinstance(v, ast.Subscript) and subscript_key(v) and subscript_key(v)[1] == 'n_failed'):
+                    inline = inline or (n, v)
+    need(len(cand) == 1 or (not cand and inline is not None), "C10.R4: the read of run_summary['n_failed'] in main() was not found")
+    if cand:
+        d = cand[0]
+        var = d.name
+    else:
+        class _D:
+            pass
+        d = _D()
+        d.node, d.value, d.name = inline[0], inline[1], None
+        var = '@' + ' '.join(ast.unparse(inline[1]).split())
     # default of .get must be falsy
     if isinstance(d.value, ast.Call) and len(d.value.args) > 1:
         dv = d.value.args[1]
@@ -335,7 +359,7 @@ def r4_exit_status(ctx):
                 if t in (True, False) and b.attrs['polarity'] != t:
                     return False
             return True
-        reach = graph.reachable(d.node.nsucc(), efilter=ef)
+        reach = graph.reachable(d.node.nsucc() if cand else [d.node], efilter=ef)
         rets = [n for n in reach if n.kind == 'stmt' and isinstance(n.ast, ast.Return)]
         implicit = any(x is g.exit for n in reach if not (n.kind == 'stmt' and isinstance(n.ast, ast.Return)) for x in n.nsucc())
         ok = bool(rets) and not implicit
@@ -728,6 +752,8 @@ VARIANTS = [
     fire('disabled-run-under-all', 'C10.R5', (RN, "                if gather_all and example.is_disabled():\n                    continue\n", "")),
     fire('list-gathers-all', 'C10.R5', (RN, "    gather_all = (command == 'all' or command == 'dump')\n", "    gather_all = (command == 'all' or command == 'dump' or command == 'list')\n")),
     fire('passed-flag-wrong', 'C10.R1', (DE, "        passed = not failed and not skipped\n", "        passed = not failed\n")),
+    silent('exit-status-tested-in-place', (MA, "    n_failed = run_summary.get('n_failed', 0)\n    if n_failed > 0:\n        return 1\n    else:\n        return 0\n", "    return 1 if run_summary.get('n_failed', 0) > 0 else 0\n")),
+    fire('exit-status-tested-in-place-off-by-one', 'C10.R4', (MA, "    n_failed = run_summary.get('n_failed', 0)\n    if n_failed > 0:\n        return 1\n    else:\n        return 0\n", "    return 1 if run_summary.get('n_failed', 0) > 1 else 0\n")),
     silent('exit-status-int-of-comparison', (MA, "    if n_failed > 0:\n        return 1\n    else:\n        return 0\n", "    return int(n_failed > 0)\n")),
     silent('exit-status-min', (MA, "    if n_failed > 0:\n        return 1\n    else:\n        return 0\n", "    return min(n_failed, 1)\n")),
     silent('gather-all-membership', (RN, "    gather_all = (command == 'all' or command == 'dump')\n", "    gather_all = command in ('all', 'dump')\n")),
